@@ -225,6 +225,17 @@ func (fg *FG) instr(st *State, in ssa.Instruction) {
 			el := x.Val.Type().(*types.Pointer).Elem()
 			_, isS := structOf(el)
 			_, isA := types.Unalias(el).Underlying().(*types.Array)
+			if isFA && isS {
+				// the address of an embedded struct of a foreign package (sync.Pool, sync.Mutex, ...): the
+				// verified code cannot touch its fields, only hand it to (assumed) callees - the stored
+				// pointer is the opaque interior reference that ghost fields of such objects hang on
+				if n, ok := types.Unalias(el).(*types.Named); ok && n.Obj().Pkg() != nil && !strings.HasPrefix(n.Obj().Pkg().Path(), repoModule) {
+					v = Val{T: fg.interiorRef(v.Loc), Ty: x.Val.Type()}
+					fg.frameCheck(st, l, in)
+					fg.store(st, l, v.T)
+					break
+				}
+			}
 			if !isFA || isS || isA {
 				fg.fail("interior address stored to memory (outside the subset)")
 			}
